@@ -92,3 +92,20 @@ func TestDefectProbes(t *testing.T) {
 		fmt.Printf("P3 kill child c; child set(new): c/k2 in tx = %v, after commit = %v (want nil nil); main 'c' = %v (want [9])\n", k2, k2c, main)
 	}
 }
+
+// TestChildAlias: two child tries with equal contents share one entry of
+// InMemoryTrie.childTries (keyed by the child root hash).
+func TestChildAlias(t *testing.T) {
+	if os.Getenv("TXN_PROBES") == "" {
+		t.Skip("TXN_PROBES not set")
+	}
+	defer func() { fmt.Println("P4 recovered:", recover()) }()
+	tr := inmemory.NewEmptyTrie()
+	_ = tr.PutIntoChild([]byte("c1"), []byte("k"), []byte{1})
+	_ = tr.PutIntoChild([]byte("c2"), []byte("k"), []byte{1}) // same contents => same root hash
+	_ = tr.PutIntoChild([]byte("c1"), []byte("x"), []byte{2}) // deletes childTries[hash], which c2 still needs
+	v, err := tr.GetFromChild([]byte("c2"), []byte("k"))
+	fmt.Printf("P4 c1={k:1}, c2={k:1}, put c1/x: GetFromChild(c2,k) = %v err=%v (want [1])\n", v, err)
+	err = tr.PutIntoChild([]byte("c2"), []byte("y"), []byte{3})
+	fmt.Println("P4 PutIntoChild(c2,y):", err)
+}
